@@ -144,6 +144,12 @@ def length_sweep(quick):
         out.append([ev("str", "strref", txt)])
         out.append([ev("objS", "objS", (), -1, "any"), ev("key", "key", txt), ev("int", "int", canon(L)), ev("objE", "objE")])
         out.append([ev("objS", "objS", (), 1, "any"), ev("key", "keyref", txt), ev("str", "str", txt), ev("objE", "objE")])
+        if L >= 2:
+            # two different texts that both need escaping in JSON (they take the parser's copying path)
+            e1 = [10] + txt[1:]
+            e2 = [34] + [65 + (j % 26) for j in range(L - 1)]
+            out.append([ev("arrS", "arrS", (), -1, "any"), ev("str", "str", e1), ev("str", "str", e2[: max(2, L - 3)]), ev("arrE", "arrE")])
+            out.append([ev("objS", "objS", (), 2, "any"), ev("key", "key", e1), ev("str", "strref", e2), ev("key", "keyref", e2), ev("nil", "nil"), ev("objE", "objE")])
         if L <= 300:
             out.append([ev("xarr", "bytes", (), 0, "", [dict(key=[], v=canon(b), i=[], s=[]) for b in txt])])
             out.append([ev("arrS", "arrS", (), -1, "any")] + [ev("nil", "nil")] * min(L, 40) + [ev("arrE", "arrE")])
